@@ -341,9 +341,18 @@ theorem findBidiKids_erase (c : Ctx) : ∀ ks : List Node,
       have : (kind != StrKind.text) = true := by simpa using h
       simp only [this, if_true, findBidiKids_erase c ks]
 
+theorem eraseSpecial_elem? (n : Node) : (Spec.eraseSpecial n).elem? = n.elem? := by
+  cases n with
+  | elem e kids => simp [Spec.eraseSpecial, Node.elem?]
+  | str k s => cases k <;> simp [Spec.eraseSpecial, Node.elem?]
+
+theorem locIsIframe_erase (c : Ctx) (l : Loc) : c.locIsIframe (locErase l) = c.locIsIframe l := by
+  unfold Ctx.locIsIframe Loc.elem?
+  rw [locErase_focus, eraseSpecial_elem?]
+
 theorem findBidi_erase (c : Ctx) (l : Loc) : findBidi c (locErase l) = findBidi c l := by
   unfold findBidi
-  rw [locErase_focus, kids_erase, ← eraseSpecialKids_eq_map, findBidiKids_erase]
+  rw [locIsIframe_erase, locErase_focus, kids_erase, ← eraseSpecialKids_eq_map, findBidiKids_erase]
 
 /-! ### Document order -/
 
